@@ -293,6 +293,8 @@ def binary_worker(job):
             raw = rtx.ser_tx(t)
             if ref_parse(raw) is None or len(raw) > 20000:
                 continue
+            if not t.vin:
+                continue      # `--tx` needs an input to debug: zero-input transactions are refused by the tool (decoding itself is judged in the harness)
             kind = rng.choice(['valid', 'truncation', 'trailing', 'flag'])
             m = raw
             if kind == 'truncation':
